@@ -86,6 +86,31 @@ theorem C07_label_scans (E : Quote.Env) (lU dU : Nat → Bool) (hL1 : lU 0xFFFD 
     (h : printLabel E lU dU s = .ident n) : Ident.scanIdentClean lU dU (runes n) = true :=
   label_scans E lU dU hL1 hL2 hD1 hD2 hdisj s n h
 
+/-- The label `exporter.stringLabel` itself prints (since /repo 6c9a0c0 `package` and `import` are
+always quoted, everything else is `ast.NewStringLabel`) compiles back to the regular field `s`, for
+every valid-UTF-8, NFC-stable `s`. -/
+theorem C07_export_label (E : Quote.Env) (hE : E.Ok) (lU dU : Nat → Bool) (nfc : Bytes → Bytes)
+    (s : Bytes) (hb : Quote.IsBytes s) (hv : Quote.validUTF8 s = true) (hn : nfc s = s) :
+    parseLabel nfc (exportLabel E lU dU s) = some (.str s) :=
+  exportLabel_roundtrip hE lU dU nfc s hb hv hn
+
+/-- An identifier the exporter prints as a label is never `package` or `import` — the two names the
+parser does not accept as a field label at the top level of a file — and is what
+`ast.NewStringLabel` yields (so `C07_label_ident_safe` / `C07_label_scans` apply to it). -/
+theorem C07_export_label_no_file_keyword (E : Quote.Env) (lU dU : Nat → Bool) (s n : Bytes)
+    (h : exportLabel E lU dU s = .ident n) :
+    isFileKeyword n = false ∧ printLabel E lU dU s = .ident n :=
+  exportLabel_ident_not_keyword E lU dU s n h
+
+-- non-vacuity: `package` is quoted by the exporter although ast.NewStringLabel leaves it unquoted;
+-- `if` stays an identifier
+example : exportLabel Quote.asciiEnv (fun _ => false) (fun _ => false) [112, 97, 99, 107, 97, 103, 101] =
+      .lit [34, 112, 97, 99, 107, 97, 103, 101, 34] ∧
+    printLabel Quote.asciiEnv (fun _ => false) (fun _ => false) [112, 97, 99, 107, 97, 103, 101] =
+      .ident [112, 97, 99, 107, 97, 103, 101] ∧
+    exportLabel Quote.asciiEnv (fun _ => false) (fun _ => false) [105, 102] = .ident [105, 102] := by
+  decide
+
 -- non-vacuity (samples, not the property): "a-b", "0a", "_x", "#y", "" are quoted; "if" and "é"
 -- (with é a letter) are printed as identifiers; all of them meet the hypotheses of `C07_label`
 section
